@@ -86,6 +86,7 @@ TOnDown(h, a, e)  == T("OnDown", 0, h, "", a, e, 0)          \* Cluster.on_down(
 TAddPool(s, h, kind, n) == T("AddPool", s, h, kind, FALSE, FALSE, n)   \* run_add_or_renew_pool; kind: up, add (done-callbacks), upd, init
 TPoolShut(s, h, o, u)   == T("PoolShut", s, h, "", o, u, 0)  \* pool.shutdown of a pool popped from _pools; o = still open, u = then update_created_pools
 TRecon(h, att, c, a)    == T("Recon", 0, h, IF att THEN "att" ELSE "det", c, a, 0)   \* handler.run; att = it is the host's handler; c = cancelled; a = is_host_addition
+TReconConn(h, att, c, a) == T("ReconConn", 0, h, IF att THEN "att" ELSE "det", c, a, 0)  \* the connection attempt of handler.run is in flight
 TOnUp(h)          == T("OnUp", 0, h, "", FALSE, FALSE, 0)    \* Cluster.on_up(host) scheduled by a status event
 TRemoveHost(h)    == T("RemoveHost", 0, h, "", FALSE, FALSE, 0)
 TRefreshIf        == T("RefreshIf", 0, 0, "", FALSE, FALSE, 0)   \* _refresh_nodes_if_not_up(None)
@@ -155,9 +156,10 @@ UpdPools(st, s) ==
 UpdAllPools(st) == Fold(LAMBDA x, s : UpdPools(x, s), st, Sessions)
 
 (* get_and_set_reconnection_handler(None) [+ cancel]: the entries of the host's handler follow it *)
-DetachT(t, h, cancel) == IF t.k = "Recon" /\ t.h = h /\ t.kind = "att"
+IsRecon(t) == t.k \in {"Recon", "ReconConn"}
+DetachT(t, h, cancel) == IF IsRecon(t) /\ t.h = h /\ t.kind = "att"
                          THEN [t EXCEPT !.kind = "det", !.f1 = (@ \/ cancel)] ELSE t
-HasAtt(b, h) == \E t \in DOMAIN b : t.k = "Recon" /\ t.h = h /\ t.kind = "att"
+HasAtt(b, h) == \E t \in DOMAIN b : IsRecon(t) /\ t.h = h /\ t.kind = "att"
 Detach(st, h, cancel) ==
     [st EXCEPT !.recon[h] = "none",
                !.sched = IF HasAtt(@, h) THEN BagMap(@, LAMBDA t : DetachT(t, h, cancel)) ELSE @,
@@ -316,16 +318,24 @@ RunOnDown(st, t) ==
 (* HostConnection.shutdown of a popped pool [+ Session.on_down's done-callback] *)
 RunPoolShut(st, t) == IF t.f2 THEN UpdPools(st, t.s) ELSE st
 
-(* _ReconnectionHandler.run *)
+(* _ReconnectionHandler.run, first part: a cancelled handler does nothing, otherwise try_reconnect() starts the        *)
+(* connection attempt.  The attempt takes time (TCP connect, handshake): whatever cancels the handler meanwhile        *)
+(* (on_remove, an on_up from a status event, a replacing _start_reconnector) finds the attempt still in flight.        *)
 RunRecon(st, t) ==
-    LET h == t.h IN
-    IF t.f1 THEN st                                                  \* cancelled
-    ELSE CASE mode[h] = "refuse" -> IF ClusterShut THEN st ELSE [st EXCEPT !.sched = BagAdd(@, t)]
-           [] mode[h] = "auth"   -> [st EXCEPT !.authFailed[h] = TRUE]            \* gives up; stays the host's handler
-           [] mode[h] = "ok"     ->
-                IF ~t.f2 /\ Fine(h) /\ OnUpProceeds(st, h) THEN OnUpFineE(st, h, TRUE)
-                ELSE LET s1 == IF t.f2 THEN OnAddRefreshE(st, h) ELSE OnUpE(st, h)
-                     IN Detach(s1, h, FALSE)                                  \* callback: get_and_set_reconnection_handler(None), no cancel
+    IF t.f1 THEN st
+    ELSE [st EXCEPT !.exec = BagAdd(@, [t EXCEPT !.k = "ReconConn"])]
+
+(* _ReconnectionHandler.run, second part: the attempt has its result *)
+RunReconConn(st, t) ==
+    LET h == t.h
+        again == [t EXCEPT !.k = "Recon"]
+    IN CASE mode[h] = "refuse" -> IF ClusterShut THEN st ELSE [st EXCEPT !.sched = BagAdd(@, again)]    \* next attempt (run() starts with the cancelled check)
+         [] mode[h] = "auth"   -> [st EXCEPT !.authFailed[h] = TRUE]            \* gives up; stays the host's handler
+         [] mode[h] = "ok"     ->
+              IF t.f1 THEN st                                                 \* cancelled while connecting: `if not self._cancelled` - the connection is just closed
+              ELSE IF ~t.f2 /\ Fine(h) /\ OnUpProceeds(st, h) THEN OnUpFineE(st, h, TRUE)
+              ELSE LET s1 == IF t.f2 THEN OnAddRefreshE(st, h) ELSE OnUpE(st, h)
+                   IN Detach(s1, h, FALSE)                                    \* callback: get_and_set_reconnection_handler(None), no cancel
 
 (* ControlConnection._reconnect, first half: _reconnect_internal connects to host 1, registers, refreshes with the new connection *)
 RunCtlReconnect(st) ==
@@ -342,6 +352,7 @@ RunTask(st, t) ==
       [] t.k = "AddPool"      -> RunAddPool(st, t)
       [] t.k = "PoolShut"     -> RunPoolShut(st, t)
       [] t.k = "Recon"        -> RunRecon(st, t)
+      [] t.k = "ReconConn"    -> RunReconConn(st, t)
       [] t.k = "OnUp"         -> IF Fine(t.h) /\ OnUpProceeds(st, t.h) THEN OnUpFineE(st, t.h, FALSE) ELSE OnUpE(st, t.h)
       [] t.k = "OnUpCont"     -> RunOnUpCont(st, t)
       [] t.k = "RemoveHost"   -> IF st.known[t.h] /\ ~ClusterShut THEN Refresh(OnRemoveE(st, t.h))   \* ControlConnection.on_remove refreshes
@@ -509,8 +520,8 @@ TypeOK ==
     /\ phase \in 0..3 /\ budget \in 0..MaxEvents /\ leaked \in 0..8
 
 (* ---- C25 ---- *)
-LiveRecons(h) == BagCount(sched, LAMBDA t : t.k = "Recon" /\ t.h = h /\ ~t.f1)
-                 + BagCount(exec, LAMBDA t : t.k = "Recon" /\ t.h = h /\ ~t.f1)
+LiveRecons(h) == BagCount(sched, LAMBDA t : IsRecon(t) /\ t.h = h /\ ~t.f1)
+                 + BagCount(exec, LAMBDA t : IsRecon(t) /\ t.h = h /\ ~t.f1)
 (* executor drained and nothing due in the scheduler (reconnection attempts are the only delayed entries) *)
 Quiescent == phase = 0 /\ exec = EmptyBag /\ \A e \in DOMAIN sched : e.k = "Recon"
 Subject(h) == h \in Hosts \ Ignored /\ known[h] /\ ~authFailed[h]
@@ -534,7 +545,8 @@ Refused == \A s \in Sessions : req[s] # "pending"
 
 \* vacuity witnesses (each must be violated = reachable)
 Witness_Reconnected == ~(\E h \in Hosts : wentDown[h] /\ up[h] = "T" /\ lsnUp[h] = 1)
-Witness_ReconRetry == ~(act.name = "Exec" /\ act.t.k = "Recon" /\ ~act.t.f1 /\ LiveRecons(act.t.h) = 1 /\ mode[act.t.h] = "refuse")
+Witness_ReconRetry == ~(act.name = "Exec" /\ act.t.k = "ReconConn" /\ ~act.t.f1 /\ LiveRecons(act.t.h) = 1 /\ mode[act.t.h] = "refuse")
 Witness_ShutdownWithWork == ~(phase = 3 /\ exec # EmptyBag)
+Witness_CancelledInFlight == ~(act.name = "Exec" /\ act.t.k = "ReconConn" /\ act.t.f1 /\ mode[act.t.h] = "ok")
 Witness_ShutdownMidUp == ~(phase = 1 /\ \E h \in Hosts : handling[h])
 =============================================================================
